@@ -41,22 +41,22 @@ def tables(prop, tier, seed, ctx):
 STRESS_SCENARIOS = {
     # property -> (quick scenarios, quick seconds for the hammer, thorough scenarios, thorough seconds)
     # every scenario is attached to every property one of its oracles can decide (tags in harness/src/bin/stress.rs)
-    "C01": (["late", "blocking", "cancel", "backlog", "refs", "selfchain"], 0, ["late", "blocking", "cancel", "backlog", "refs", "selfchain", "hammer", "mix"], 60),
-    "C02": (["blocking", "cancel", "backlog"], 0, ["blocking", "cancel", "backlog", "hammer", "mix"], 60),
-    "C03": (["askjoin", "hammer", "idlewin", "blocking", "cancel", "backlog", "replyclose", "mix", "afterend", "queuedask"], 6, ["askjoin", "hammer", "idlewin", "blocking", "cancel", "backlog", "replyclose", "mix", "afterend", "queuedask"], 180),
+    "C01": (["late", "blocking", "cancel", "backlog", "refs", "selfchain", "stale"], 0, ["late", "blocking", "cancel", "backlog", "refs", "selfchain", "hammer", "mix", "stale"], 60),
+    "C02": (["blocking", "cancel", "backlog", "stale"], 0, ["blocking", "cancel", "backlog", "hammer", "mix", "stale"], 60),
+    "C03": (["askjoin", "hammer", "idlewin", "blocking", "cancel", "backlog", "replyclose", "mix", "afterend", "queuedask", "stale"], 6, ["askjoin", "hammer", "idlewin", "blocking", "cancel", "backlog", "replyclose", "mix", "afterend", "queuedask", "stale"], 180),
     "C04": (["backlog", "refs", "hookpanic", "idlewin"], 0, ["backlog", "refs", "hookpanic", "hammer", "mix", "idlewin"], 60),
-    "C05": (["cancel", "backlog", "idlewin", "refs"], 0, ["cancel", "backlog", "idlewin", "refs", "hammer", "mix"], 60),
+    "C05": (["cancel", "backlog", "idlewin", "refs", "stale"], 0, ["cancel", "backlog", "idlewin", "refs", "hammer", "mix", "stale"], 60),
     "C06": (["refs", "queuedask"], 0, ["refs", "hammer", "mix", "queuedask"], 60),
-    "C07": (["refs", "cancel", "backlog", "blocking", "selfchain"], 0, ["refs", "cancel", "backlog", "blocking", "selfchain", "hammer", "mix"], 60),
+    "C07": (["refs", "cancel", "backlog", "blocking", "selfchain", "stale"], 0, ["refs", "cancel", "backlog", "blocking", "selfchain", "hammer", "mix", "stale"], 60),
     "C08": (["idlewin", "backlog", "cancel"], 0, ["idlewin", "backlog", "cancel"], 0),
-    "C09": (["blocking", "cancel", "backlog", "late"], 0, ["blocking", "cancel", "backlog", "late"], 0),
-    "C10": (["late", "blocking", "lazyfut"], 0, ["late", "blocking", "lazyfut"], 0),
+    "C09": (["blocking", "cancel", "backlog", "late", "stale"], 0, ["blocking", "cancel", "backlog", "late", "stale"], 0),
+    "C10": (["late", "blocking", "lazyfut", "stale"], 0, ["late", "blocking", "lazyfut", "stale"], 0),
     "C11": (["ids", "refs", "selfchain", "afterend", "queuedask"], 0, ["ids", "refs", "selfchain", "afterend", "queuedask"], 0),
-    "C12": (["ids", "hookpanic", "askjoin", "queuedask"], 0, ["ids", "hookpanic", "askjoin", "queuedask"], 0),
-    "C13": (["blocking", "replyclose", "mix"], 4, ["blocking", "replyclose", "mix"], 60),
+    "C12": (["ids", "hookpanic", "askjoin", "queuedask", "backlog"], 0, ["ids", "hookpanic", "askjoin", "queuedask", "backlog"], 0),
+    "C13": (["blocking", "replyclose", "mix", "stale"], 4, ["blocking", "replyclose", "mix", "stale"], 60),
     "C16": (["lazyfut", "blocking", "erasedblk", "refs", "hookpanic"], 0, ["lazyfut", "blocking", "erasedblk", "refs", "hookpanic"], 0),
     "C17": (["blocking", "late", "erasedblk"], 0, ["blocking", "late", "erasedblk", "hammer"], 60),
-    "C19": (["blocking", "askjoin"], 0, ["blocking", "askjoin"], 0),
+    "C19": (["blocking", "askjoin", "hookpanic"], 0, ["blocking", "askjoin", "hookpanic"], 0),
 }
 
 
